@@ -402,21 +402,22 @@ def render_item(it: Item, derives: List[str], bounds: str = "", extra_attrs: Lis
         a = render_variant_attrs(v)
         if a:
             lines.append(a)
+        vid = frag(v.ident, "ident") if (_FRAGS is not None and getattr(it, "via_macro", None) == "idents") else v.ident   # variant NAMES as macro fragments
         tc = "," if getattr(it, "trailing_commas", False) and v.fields else ""      # `One(u32,)`, `S { a: u8, }`: legal, and rustfmt's vertical layout
         if v.kind == "unit":
-            body = v.ident
+            body = vid
         elif v.kind == "tuple":
             fs = []
             for f in v.fields:
                 pre = "".join("#[strum(default_with = %s)] " % rust_str(d) for d in f.dws)
                 fs.append(pre + f.ty)
-            body = "%s(%s%s)" % (v.ident, ", ".join(fs), tc)
+            body = "%s(%s%s)" % (vid, ", ".join(fs), tc)
         else:
             fs = []
             for f in v.fields:
                 pre = "".join("#[strum(default_with = %s)] " % rust_str(d) for d in f.dws)
                 fs.append("%s%s: %s" % (pre, f.name, f.ty))
-            body = "%s { %s%s }" % (v.ident, ", ".join(fs), tc)
+            body = "%s { %s%s }" % (vid, ", ".join(fs), tc)
         if v.discr is not None:
             body += " = %s" % (v.discr_expr if v.discr_expr is not None else str(v.discr))
         lines.append("    %s," % body)
